@@ -65,7 +65,7 @@ func expectedView(id, fl uint16) string {
 
 // RoundTrip runs the real code.
 func RoundTrip(id, fl uint16, name []byte, qt uint16) string {
-	return dnsimpl.Guard(func() string {
+	return dnsimpl.GuardOp("dns.rt", func() string {
 		buf := make([]byte, len(name)+2)
 		n := packet.VerifEncodeName(dnsimpl.Exact(name), buf, 0)
 		msg := packet.EncodeDNSQuery(id, fl, buf[:n:n], qt)
@@ -189,7 +189,13 @@ func Eval(c *core.Ctx, line string) *core.Case {
 
 func add(c *core.Ctx, class string, id, fl int, name []byte, qt int) {
 	line := fmt.Sprintf("dns.rt %d %d %s %d", id, fl, core.Hex(name), qt)
-	if cs := Eval(c, line); cs != nil && !dnsimpl.Skipped(cs.Impl) {
+	cs := Eval(c, line)
+	switch {
+	case cs == nil:
+		c.Drop(class, "not evaluated")
+	case dnsimpl.Skipped(cs.Impl):
+		c.Drop(class, "skipped: hang budget of the operation spent")
+	default:
 		cs.Class = class
 		c.Add(*cs)
 	}
